@@ -14,7 +14,28 @@ func init() {
 		"push channel contents in order, IsShutdown; every case a specification case; non-trivial = schedule with at least one frame or fault; distinct = distinct schedule"
 	register("c03", "C03 focus (response routing, pushes, permutations): "+rule, func(o *Out, r *rand.Rand) { runMux(o, r, "c03") })
 	register("c05", "C05 focus (faults and Close at every position, signal counts): "+rule, func(o *Out, r *rand.Rand) { runMux(o, r, "c05") })
-	register("c06", "C06 focus (victim + aggressors: cancel before/after registration, unencodable argument, undecodable reply): "+rule, func(o *Out, r *rand.Rand) { runMux(o, r, "c06") })
+	register("c06", "C06 focus (victim + aggressors: cancel before/after registration, unencodable argument, undecodable reply; plus, against a real server, pipelined calls on shared connections "+
+		"some of whose handlers fail or are one-way, with pooled Reset-able argument/reply types: every other call's result must be its own): "+rule, func(o *Out, r *rand.Rand) {
+		runMux(o, r, "c06")
+		// the server side of isolation: a failing (or one-way) handler must not change what the
+		// other calls in flight on the same connection get back
+		rounds := 3
+		if thorough() {
+			rounds = 15
+		}
+		id := 950000
+		for _, so := range []srvOpts{{}, {pool: true}} {
+			rig, err := newSrvRig(so)
+			if err != nil {
+				o.Violate("srv.rig", "cannot start the server: "+err.Error(), nil)
+				return
+			}
+			for i := 0; i < rounds; i++ {
+				srvPooled(o, rig, r, &id, "c06")
+			}
+			rig.close()
+		}
+	})
 }
 
 func runMux(o *Out, r *rand.Rand, focus string) {
